@@ -33,3 +33,14 @@ Check (C16_audio_rate_field_wraps_refuted : (forall ch rate rest, 65536 <= rate 
   rd16 (skipn 24 (audio_entry_prefix ch rate ++ rest)) = Some (rate mod 65536, skipn 26 (audio_entry_prefix ch rate ++ rest)))%type).
 Check (C16_fragment_duration_wraps_refuted : (forall s n, 4294967296 <= n - fs_dts s ->
   firstn 4 (trun_entry None (Some n) s) = be32 ((n - fs_dts s) mod 4294967296))%type).
+Check (C16_finished_file_fields_are_exact : (forall b m0 ops m rs s,
+  build b [] = inl m0 -> run m0 ops = (m, rs) -> In (RStats s) rs ->
+  Forall op_payload_ok ops -> len (sink_of m) < 4294967296 ->
+  sumN (durations_of (vsamples (m_writer m)) (w_vlast_delta (m_writer m))) < 4294967296 ->
+  sumN (durations_of (asamples (m_writer m)) (w_alast_delta (m_writer m))) < 4294967296 ->
+  (match cfg_audio b with Some a => at_sample_rate a < 65536 /\ at_channels a < 65536 | None => True end) ->
+  failed_C16_mux b ops (map class_of rs) (sink_of m) = [])%type).
+Check (C16_duration_wrap_witness_refuted : (exists b ops, match build b [] with
+                | inl m0 => let '(m, rs) := run m0 ops in
+                            In 4 (failed_C16_mux b ops (map class_of rs) (sink_of m))
+                | inr _ => False end)%type).
